@@ -398,6 +398,11 @@ def c04_loop_scenarios(tier):
     for skip in (True, False):
         out.append(_loop(loop_case(2, 2, 0, 2, 4, 1, skip_ext=skip, max_time_ns=3, thread_skew=3000, read_cost=0, alloc=[0] * 5, input_counters=0), pb=2))
         out.append(_loop(loop_case(2, 2, 0, 2, 2, 1, skip_ext=skip, min_time_ns=3, thread_skew=3000, read_cost=0, alloc=[0] * 5, input_counters=0), pb=2))
+    # the limit equals the whole round (1 ns + 4 ns on the shared clock): in the schedules where the
+    # calling thread runs its sample after the worker, it is thread 0 that supplies the latest end (5 ns)
+    # while the highest-numbered thread ended at 4 ns
+    out.append(_loop(loop_case(2, 2, 0, 2, 4, 1, skip_ext=False, max_time_ns=5, thread_skew=3000, read_cost=0, alloc=[0] * 5, input_counters=0), pb=2))
+    out.append(_loop(loop_case(2, 2, 0, 2, 2, 1, skip_ext=None, min_time_ns=5, thread_skew=3000, read_cost=0, alloc=[0] * 5, input_counters=0), pb=2))
     if tier == "thorough":
         for skip in (True, False):
             out.append(_loop(loop_case(2, 2, 0, 2, 4, 1, skip_ext=skip, max_time_ns=3, thread_skew=3000, read_cost=0, alloc=[0] * 5, input_counters=0), pb=3))
